@@ -204,9 +204,32 @@ def run(rep):
         Q2 = 4.0 if i % 5 == 0 else 10 ** rng.uniform(math.log10(4.0), 2)
         point = dict(x=xi, eta=xi, xi=xi, t=t, Q2=Q2)
         pt = g.DataPoint(point)
-        cf = th.cff(pt)
-        hx = th.Hx(pt)
-        ex = th.Ex(pt)
+        # history: the relation must hold on a theory object that has already been used (forward GPDs, other points)
+        hist = []
+        if rng.random() < 0.5:
+            for _ in range(rng.randint(1, 3)):
+                k = rng.choice(['Hx.forward', 'Ex.forward', 'Hx.other-t', 'cff.other-xi', 'Hx.other-x'])
+                if k.endswith('forward'):
+                    q = dict(x=xi, eta=0, t=t, Q2=Q2)
+                elif k == 'Hx.other-t':
+                    q = dict(x=xi, eta=xi, t=t - 0.3, Q2=Q2)
+                elif k == 'Hx.other-x':
+                    q = dict(x=xi / 2, eta=xi / 2, t=t, Q2=Q2)
+                else:
+                    q = dict(xi=xi / 3, t=t, Q2=Q2)
+                getattr(th, k.split('.')[0])(g.DataPoint(q))
+                hist.append((k, q))
+        rep.hist('handbag.history', len(hist))
+        if hist:
+            point = dict(point, calls_before_on_the_same_theory_object=hist)
+        if rng.random() < 0.5:
+            cf = th.cff(pt)
+            hx = th.Hx(pt)
+            ex = th.Ex(pt)
+        else:
+            ex = th.Ex(pt)
+            hx = th.Hx(pt)
+            cf = th.cff(pt)
         qs = th.dvcs_charges[0]
         pwH, pwE = th.pw_strengths(), th.pw_strengths_E()
         h = np.einsum('f,fa,ja->jf', th.dvcs_charges, th.frot, th.H(xi, t))
